@@ -197,7 +197,10 @@ def strNumsAux (sep : List Char) : Nat → List Char → Option (List Rat)
     | some v =>
       match rest with
       | [] => some [v]
-      | _ :: more => if more.isEmpty then none else (strNumsAux sep fuel more).map (v :: ·)
+      | c :: more =>
+        -- white space behind the last number is no further element; a trailing separator of another kind is left open
+        if Iter.isSpace c ∧ more.all Iter.isSpace then some [v]
+        else if more.isEmpty then none else (strNumsAux sep fuel more).map (v :: ·)
 
 def strNums (text sep : List Char) : Option (List Rat) :=
   if text.isEmpty then some [] else strNumsAux sep (text.length + 1) text
@@ -401,7 +404,7 @@ def step (s : St) (w : List String) : St × String :=
       else
         let txt := d.getD []
         let must := ((IterSpec.recognise txt).bind (·.den)).isSome
-        let never := IterSpec.certainlyMalformed txt || IterSpec.malformedCount txt ||
+        let never := IterSpec.certainlyMalformed txt || IterSpec.malformedCount txt || IterSpec.trailingJunk txt ||
           ((IterSpec.recognise txt).map (·.senseless)).getD false
         let alts := if d.isNone then "* ; *" else if must then "ok slot=* ; *" else if never then "refused ; *" else "* ; *"
         let g := if d.isNone then some defaultRange else create txt
@@ -425,7 +428,7 @@ def step (s : St) (w : List String) : St × String :=
             | some txt => profile grid txt
           -- spec: canonical descriptions are accepted with their denotation, malformed ones refused
           let den := (d.bind IterSpec.recogniseProfile).bind (·.den grid)
-          let never := (d.map IterSpec.profileMalformed).getD false || k == 0
+          let never := (d.map IterSpec.profileMalformed).getD false || (d.map IterSpec.profileJunk).getD false || k == 0
           let alts := if den.isSome then s!"ok slot={s.slots.size} ; *" else if never then "refused ; *" else "* ; *"
           addSlot s (g.map fun x => mkSlotDen x den) true alts
   | ["it", "grow", k, n] =>
